@@ -200,6 +200,14 @@ def run(ctx):
                   'Component::read: a field with a registered size is not always read through its exact sub-buffer (extra condition %s): '
                   'e.g. an empty field would swallow the rest of the stream' % extra_br)
     ctx.floor('R10.4', 'sized-field paths in Component::read', n_sized, 1)
+    # a later Size option for the same field replaces an earlier one (bitmapComprHdr overrides bitmapLength): overwriting insert
+    ins_calls = [c for c in cr.calls if re.search(r'HashMap::<K, V, S(, A)?>::insert$', c.callee)]
+    weak = [c for c in cr.calls if re.search(r'hash_map::Entry<.*>::or_insert(_with)?$|HashMap::<K, V, S(, A)?>::(entry|try_insert)$', c.callee)]
+    ctx.check(len(ins_calls) >= 1 and not weak, 'R10.4', 'component_read:size_override',
+              'Component::read registers a Size option with an overwriting HashMap::insert: the last option read for a field decides its size', cr.where(),
+              'Component::read does not register Size options with a plain overwriting insert (%s): when two fields size the same later field '
+              '(bitmapLength and the compression header) the first one wins and the payload is cut at the wrong place'
+              % ([c.callee.rsplit('::', 2)[-2] + '::' + c.callee.rsplit('::', 1)[-1] for c in weak] or 'no HashMap::insert'))
 
     # ---- R10.5 routing ------------------------------------------------------------------------------------------------
     mr = ctx.body('core::mcs::Client::<S>::read')
